@@ -808,6 +808,9 @@ func (e *Env) codecScalar(dst, src kyber.Scalar) error {
 		if err := dst.UnmarshalBinary(in); err != nil {
 			return fmt.Errorf("UnmarshalBinary of a fresh encoding: %w", err)
 		}
+		if !bytes.Equal(in, ref) {
+			return fmt.Errorf("UnmarshalBinary modified the caller's input slice: %x -> %x", ref, in)
+		}
 	case 1:
 		var buf bytes.Buffer
 		n, err := src.MarshalTo(&buf)
@@ -858,6 +861,9 @@ func (e *Env) codecPoint(dst, src kyber.Point) error {
 		in := append([]byte(nil), ref...)
 		if err := dst.UnmarshalBinary(in); err != nil {
 			return fmt.Errorf("UnmarshalBinary of a fresh encoding: %w", err)
+		}
+		if !bytes.Equal(in, ref) {
+			return fmt.Errorf("UnmarshalBinary modified the caller's input slice: %x -> %x", ref, in)
 		}
 	case 1:
 		var buf bytes.Buffer
